@@ -77,10 +77,10 @@ CLAIMS = {
             "requests that the RPC layer's pre-checks refuse before calling the keeper, the private auto-create switch, and a per-directory entry below the minimum next to a valid one are diagnostics, not violations (see DESIGN §C15); free-disk figures from the real statfs: only far-below / far-beyond requests are judged",
             "DESIGN.md §C15"),
     "C14": ("model_checking",
-            "stateless enumeration of all schedules of 2-4 goroutines at transaction-boundary granularity under the quiescence scheduler + brute-force linearizability check per schedule; separate free-running -race pass",
+            "stateless enumeration of all schedules of 2-4 goroutines at transaction-boundary granularity under the quiescence scheduler + brute-force linearizability check per schedule; separate -race pass with delay-bounded schedule enumeration",
             "qsched",
-            "17 (thorough 20) scenarios of 2-4 goroutines x 1-2 operations colliding on the same keystores (key issuance, address generation, signing, lookups, listing, remark, export, lock/unlock/IsLocked, create/delete): every complete schedule with scheduling points at operation starts and at BeginTx/Commit/BeginReadTx of the wallet store is executed on the real wallet; each call/return history is checked for linearizability against the sequential reference by exhaustive search over the orders consistent with real time; the running and the reopened wallet must equal the witness's final state; returned keys pairwise distinct (C06 concurrent part); panics and calls that never return are violations. Each scenario body also runs 60x free under the race detector: a report with a frame in the wallet package is a violation (this pass samples schedules; it is the oracle for data races only).",
-            "finer interleavings than transaction boundaries are unobservable for methods holding the manager mutex; the race detector reports what it observes",
+            "17 (thorough 20) scenarios of 2-4 goroutines x 1-2 operations colliding on the same keystores (key issuance, address generation, signing, lookups, listing, remark, export, lock/unlock/IsLocked, create/delete): every complete schedule with scheduling points at operation starts and at BeginTx/Commit/BeginReadTx of the wallet store is executed on the real wallet; each call/return history is checked for linearizability against the sequential reference by exhaustive search over the orders consistent with real time; the running and the reopened wallet must equal the witness's final state; returned keys pairwise distinct (C06 concurrent part); panics and calls that never return are violations. Plus all unordered pairs over 13 operations on a locked and on an unlocked wallet. Race pass (oracle for data races only): each scenario body runs under the race detector once undisturbed (counting the lock acquisitions of each thread through the sync shim), then once per (thread, k-th lock acquisition, delay of 2 or 12 ms) with that one delay injected, and once per (thread, head start of 0.1/1/5 ms); a report with a frame in the wallet package is a violation. Between the injected decisions the threads run free.",
+            "finer interleavings than transaction boundaries are unobservable for methods holding the manager mutex; the race pass is delay-bounded (one injected delay per run), not exhaustive over interleavings, and the detector reports what it observes in those runs",
             "DESIGN.md §C14"),
     "C11": ("exploration",
             "bounded-exhaustive enumeration of plot-directory contents at start-up and of action histories with full directory listings, on the real keeper over real massdb.v1 files",
